@@ -633,6 +633,19 @@ class Interp:
                                 else:
                                     yield s3, ("raise", SExc("KeyError"))
                                 done = True
+                            elif isinstance(s3.resolve(c), SList) and (isinstance(k, int) or (isinstance(k, tuple) and k and k[0] == "slice" and all(x is None or isinstance(x, int) for x in k[1:]))):
+                                lst = s3.resolve(c)
+                                if isinstance(k, int):
+                                    if not -len(lst.items) <= k < len(lst.items):
+                                        yield s3, ("raise", SExc("IndexError"))
+                                        done = True
+                                        continue
+                                    del lst.items[k]
+                                else:
+                                    del lst.items[slice(k[1], k[2], k[3])]
+                                s3.trace.append(("del", getattr(lst, "name", "list")))
+                                yield s3, ("normal",)
+                                done = True
                             else:
                                 raise OutsideSubset("del on a non-concrete container")
                     if done:
